@@ -104,7 +104,9 @@ let do_classify b pres t =
     let ((r2, _), _) = sysv_pass_arg td ni nf in
     if i > 0 then Buffer.add_string b ";";
     show r; Buffer.add_string b "+"; show r1; Buffer.add_string b "+"; show r2) pres;
-  Buffer.add_string b (Printf.sprintf " align=%d" (int_of_z (sysv_layout t).sv_align))
+  Buffer.add_string b (Printf.sprintf " align=%d" (int_of_z (sysv_layout t).sv_align));
+  (* inside the quantifier of the classification theorems? *)
+  Buffer.add_string b (if wf_ty t then " wf=1" else " wf=0")
 
 let () =
   try
